@@ -55,6 +55,19 @@
 // re-dials; usage drawn). Usual oracles (handler, agreement, first-use-failed-although-supported, ...) and
 // the protocol scopes of all three real managers read at quiescence while open and after the end.
 //
+// First contact and observation (audit of harness artefacts): the calls made only to observe are read-only
+// in the code under test (pstoremem SupportsProtocols, ResourceManagerState.Stat - NOT ViewProtocol, which
+// would create the scope -, Swarm.ConnsToPeer, Stream.Protocol/Conn). What did heal state was the harness's
+// own pacing: (a) Connect + a settled identify exchange before the first round made every open a second
+// contact; 1/4 of the runs are now COLD: no Connect, the first round's (concurrent) NewStream calls dial,
+// so the first connection, first identify run and first scopes are created by the operations under test,
+// possibly under the armed refusal, datagram loss or racing handler mutations (no oracle needs the warm-up;
+// only the probes two-connections/simultaneous connect do not apply); the holder of the returning-peer
+// scenario dials through NewStream in half of its runs; (b) every round ended at a quiescent instant plus
+// 2 virtual seconds and a teardown audit; 1/3 of the non-final rounds without a nonce-less open now hand over
+// to the next round as soon as the dialer's Close/Reset calls returned, while the listener still tears the
+// streams down (the while-open audit stays exact: it counts handler runs that have not returned).
+//
 // Strata (drawn next): fault-free with real resource managers (3/5); one injected resource-manager refusal
 // of SetProtocol on either node (1/5; an open may then fail, liveness oracles and "handler ran for a failed
 // open" are off, every safety oracle stays on); fault-free with network.NullResourceManager on both nodes
@@ -252,6 +265,9 @@ type roundPlan struct {
 	opens     []openPlan
 	conc      []mutPlan // executed by a mutator task concurrently with the opens
 	concYield int
+	// noSettle: the round ends when the dialer's Close/Reset calls have returned; the next round starts at once,
+	// while the listener is still tearing the streams down (no quiescent instant, no teardown audit in between)
+	noSettle bool
 }
 
 type plan struct {
@@ -274,11 +290,16 @@ type plan struct {
 	randSeed       uint64
 	// returning-peer scenario after the rounds (third node H holds a stream of protocol X on the listener while
 	// the dialer is away for several resource-manager gc periods, then the dialer reconnects and opens X)
-	gc         bool
-	gcSpec     int           // exact handler spec that defines X
-	gcAway     time.Duration // 130|190|250 s: two to four runs of the once-a-minute gc
-	gcControl  bool          // control: H's stream ends before the dialer goes away (X's scope is collected entirely)
-	gcUse      int           // usage of the dialer's open after it returned
+	gc        bool
+	gcSpec    int           // exact handler spec that defines X
+	gcAway    time.Duration // 130|190|250 s: two to four runs of the once-a-minute gc
+	gcControl bool          // control: H's stream ends before the dialer goes away (X's scope is collected entirely)
+	gcUse     int           // usage of the dialer's open after it returned
+	gcColdH   bool          // H does not Connect first: its NewStream dials (first contact)
+	// cold: no Connect before the first round: the first round's NewStream calls (concurrent, possibly under an
+	// armed refusal / datagram loss / racing handler mutations) dial the listener themselves, so the first
+	// connection, the first identify exchange and the first scopes are created by the operations under test
+	cold       bool
 	faultRound int
 	faultOnB   bool
 	faultN     int
@@ -448,6 +469,18 @@ func drawPlan(g simrt.Gen) plan {
 		p.gcAway = []time.Duration{130 * time.Second, 190 * time.Second, 250 * time.Second}[g.Int(3)]
 		p.gcControl = g.Chance(1, 4)
 		p.gcUse = []int{useNormal, useCloseWrite, useReadOnly, useDuplex}[g.Weighted(4, 1, 1, 1)]
+	}
+	p.cold = g.Chance(1, 4)
+	p.gcColdH = g.Bool()
+	for r := range p.rounds {
+		rp := &p.rounds[r]
+		nonceless := false
+		for _, op := range rp.opens {
+			if op.use == useUnused || op.use == useReadOnly {
+				nonceless = true // its handler run is attributed by round: needs the quiescent round boundary
+			}
+		}
+		rp.noSettle = r < len(p.rounds)-1 && !nonceless && g.Chance(1, 3)
 	}
 	if p.transport != trTCP {
 		// light faults on the UDP wire: loss only during the rounds < udpLossRounds (never during connect,
@@ -822,7 +855,8 @@ func (w *world) returningPeer(infoB peer.AddrInfo) bool {
 	w.apply(mutPlan{spec: p.gcSpec, name: hspecs[p.gcSpec].name})
 	X := hspecs[p.gcSpec].name
 	settle(2 * time.Second)
-	{
+	w.h.PS.AddAddrs(w.b.ID, infoB.Addrs, peerstore.PermanentAddrTTL)
+	if !p.gcColdH {
 		ctx, cancel := context.WithTimeout(context.Background(), 30*time.Second)
 		err := w.hH.Connect(ctx, infoB)
 		cancel()
@@ -971,7 +1005,7 @@ func run(t *testing.T, tape *simrt.Tape) *common.Outcome {
 		return "basic"
 	}
 	o.Logf("dialer=%s listener=%s security=%s link=%d latencies=%v simultaneous-connect=%v fault=%v(round %d onB=%v n=%d)",
-		hn(p.blankA), hn(p.blankB), p.secu, p.mode, p.lat, p.simul, p.fault, p.faultRound, p.faultOnB, p.faultN)
+		hn(p.blankA), hn(p.blankB), p.secu, p.mode, p.lat, p.simul && !p.cold, p.fault, p.faultRound, p.faultOnB, p.faultN)
 	o.Logf("listener negotiation timeout: %v", w.negTimeoutB())
 	o.Probe("transport-" + trNames[p.transport])
 	if p.transport != trTCP {
@@ -1100,8 +1134,11 @@ func run(t *testing.T, tape *simrt.Tape) *common.Outcome {
 		}
 		settle(time.Second)
 
-		// connect (identify runs on basic hosts)
-		{
+		// connect (identify runs on basic hosts) - unless the run is cold
+		if p.cold {
+			o.Logf("cold: no Connect; the first opens dial")
+			o.Probe("cold-first-contact")
+		} else {
 			var wg simsync.WaitGroup
 			var errA, errB error
 			wg.Add(1)
@@ -1209,6 +1246,11 @@ func run(t *testing.T, tape *simrt.Tape) *common.Outcome {
 			w.auditHeld(r)
 			close(rel)
 			wg.Wait()
+			if rp.noSettle && !lossy {
+				o.Logf("  next round starts without waiting for the teardown")
+				o.Probe("round-boundary-without-quiescence")
+				continue
+			}
 			if lossy {
 				// faults stop; a minute without loss lets every retransmission timer fire (and a connection
 				// whose CONNECTION_CLOSE was lost run into its 30 s idle timeout) before anything is judged
